@@ -72,6 +72,10 @@ NoPanic == IsTxn => ~ev.panic
 \* a delta too large for TLC's 32-bit integers is a limit of the HARNESS (exit 2), not a verdict;
 \* a real 64-bit wrap is caught exactly by sum_equal / above_supply, computed with big integers
 HarnessRange == IsTxn => ~ev.overflow
+\* ... unless the exact sums already differ: then the out-of-range delta IS the finding (C01 and C05 assert
+\* sum_equal), not a limit.  Used by the configs of C01 and C05, whose invariants never read a capped delta
+\* without its exact flag.
+HarnessRangeExact == IsTxn => (ev.overflow => ~ev.sum_equal)
 
 (* C01: the sum over ALL client leaves of the real trie is unchanged by    *)
 (* every transaction, no leaf disappears, nothing wraps.                   *)
@@ -133,32 +137,47 @@ C04_DebitAuth ==
 (* than the balance is rejected; a rejected txn changes no value node.      *)
 Cap == 536870912
 PreBal(a) == PairOf(ev.pre_bal, a, Cap)
+\* A balance above the whole supply is how a wrapped debit shows.  Traces of the near-maximum scenario START
+\* from a state with such balances (planted, to reach credits next to 2^64); for them the driver counts, with
+\* exact integers, the balances that are above the supply after the transaction and were not before it.
+Planted == "hi_new" \in DOMAIN ev
 C05_NoOverdraw ==
   IsTxn =>
-     /\ ~ev.above_supply /\ ev.sum_equal
+     /\ (IF Planted THEN ev.hi_new = 0 ELSE ~ev.above_supply) /\ ev.sum_equal
      /\ \A a \in Accounts : Delta(a) < 0 => (PreBal(a) = Cap \/ -Delta(a) <= PreBal(a))
      /\ (ev.type = "send" /\ ev.sender_pre_bal < Cap /\ ev.value + ev.fee > ev.sender_pre_bal) => ev.class = "rejected"
      /\ ev.class = "rejected" => ev.changed_all = 0 /\ Len(ev.delta) = 0
 
-(* C05 / Ledger!ApplyTransfer on the real code: for calls of the probe contract the    *)
-(* queued transfers are known, so the trace spec runs the model's transfer semantics   *)
-(* (in order; amount 0 skipped; from = to, or amount > balance at that point, fails    *)
-(* the whole transaction) from the recorded starting balances.  A transaction the      *)
-(* real code applied must be one the model applies, with exactly the model's net       *)
-(* balance changes.                                                                    *)
-RECURSIVE Sim(_, _, _)
-Sim(b, q, i) ==
-  IF i > Len(q) THEN [ok |-> TRUE, bal |-> b]
+(* C05 / Ledger!ApplyTransfer on the real code: for calls of the probe contract (and   *)
+(* for sends of scenarios that log their one transfer, qknown) the queued transfers     *)
+(* are known, so the trace spec runs the model's transfer semantics (Ledger!ApplyOne:   *)
+(* in order; amount 0 skipped; from = to, amount > balance at that point, or balance of *)
+(* the destination + amount > MaxCoin fails the whole transaction) from the recorded    *)
+(* starting balances.  A transaction the real code applied must be one the model        *)
+(* applies, with exactly the model's net balance changes.                               *)
+(* MaxCoin = 2^64-1 is beyond TLC's integers, so the distance to it is tracked instead: *)
+(* qroom lists, for the accounts that are within Cap of it, how much they can still     *)
+(* receive (exact, computed by the driver); everybody else has room for any amount.     *)
+RoomAdd(rm, a, d) == IF a \in DOMAIN rm THEN [rm EXCEPT ![a] = @ + d] ELSE rm
+RECURSIVE Sim(_, _, _, _)
+Sim(b, rm, q, i) ==
+  IF i > Len(q) THEN [ok |-> TRUE, bal |-> b, room |-> rm]
   ELSE LET t == q[i] IN
-       IF t.amt = 0 THEN Sim(b, q, i + 1)
-       ELSE IF t.from = t.to \/ t.huge \/ Get(b, t.from, 0) < t.amt THEN [ok |-> FALSE, bal |-> b]
-       ELSE Sim(Add(Add(b, t.from, -t.amt), t.to, t.amt), q, i + 1)
+       IF t.amt = 0 THEN Sim(b, rm, q, i + 1)
+       ELSE IF \/ t.from = t.to \/ t.huge \/ Get(b, t.from, 0) < t.amt
+               \/ (t.to \in DOMAIN rm /\ rm[t.to] < t.amt)
+            THEN [ok |-> FALSE, bal |-> b, room |-> rm]
+       ELSE Sim(Add(Add(b, t.from, -t.amt), t.to, t.amt),
+                RoomAdd(RoomAdd(rm, t.from, t.amt), t.to, -t.amt), q, i + 1)
 FeeQ == IF ev.fee = 0 THEN <<>> ELSE <<[from |-> ev.from, to |-> "minersc", amt |-> ev.fee, huge |-> FALSE]>>
 FullQueue == ev.queue \o FeeQ \o ev.squeue
 PreFun == PutPairs(<<>>, ev.qpre, 1)
+RoomFun == IF "qroom" \in DOMAIN ev THEN PutPairs(<<>>, ev.qroom, 1) ELSE <<>>
+QKnown == ev.probe \/ ("qknown" \in DOMAIN ev /\ ev.qknown)
 C05_QueueSemantics ==
-  (IsTxn /\ ev.probe /\ ev.class = "ok") =>
-     LET r == Sim(PreFun, FullQueue, 1) IN
+  (IsTxn /\ QKnown /\ ev.class = "ok") =>
+     LET r == Sim(PreFun, RoomFun, FullQueue, 1) IN
        /\ r.ok
        /\ \A a \in DOMAIN PreFun : (PreFun[a] < Cap) => Delta(a) = r.bal[a] - PreFun[a]
+       /\ \A a \in DOMAIN RoomFun : Delta(a) = RoomFun[a] - r.room[a]
 =============================================================================
